@@ -45,7 +45,8 @@ class Flags(object):
     """dual: only operators accepting both kinds of source, with the C01
     preconditions.  in_tee: inside a tee_map branch.  depth: nesting budget."""
 
-    def __init__(self, dual=False, in_tee=False, no_mut_stream=False, allow=None, deny=()):
+    def __init__(self, dual=False, in_tee=False, no_mut_stream=False, allow=None, deny=(), plain_only_ok=False):
+        self.plain_only_ok = plain_only_ok
         self.dual = dual
         self.in_tee = in_tee
         self.no_mut_stream = no_mut_stream
@@ -53,7 +54,7 @@ class Flags(object):
         self.deny = set(deny)
 
     def sub(self, **kw):
-        f = Flags(self.dual, self.in_tee, self.no_mut_stream, self.allow, self.deny)
+        f = Flags(self.dual, self.in_tee, self.no_mut_stream, self.allow, self.deny, self.plain_only_ok)
         for k, v in kw.items():
             setattr(f, k, v)
         return f
@@ -73,8 +74,10 @@ def _match(t, want):
 
 def completion_triggered(node):
     op = node['op']
-    if op in ('last', 'to_list', 'to_array', 'batch', 'pad_end'):
+    if op in ('last', 'to_list', 'to_array', 'batch', 'pad_end', 'sort', 'to_deque'):
         return True
+    if op == 'dist_update':
+        return bool(node.get('reduce'))
     if op == 'scan':
         return bool(node.get('reduce')) or node.get('term') is not None
     if op in MATH or op == 'count':
@@ -218,6 +221,25 @@ def check_node(node, st, fl):
         else:
             ot = 'any'
         return St(ot, empty, any(o.after_take for o in outs) or st.after_take, any(o.aliased for o in outs))
+    if op == 'dist_update':
+        if t not in NUM:
+            raise Invalid('dist_update type')
+        return St('any', st.empty and not node.get('reduce'), st.after_take, aliased=not node.get('reduce'))
+    if op in ('sort', 'to_deque'):
+        if not fl.plain_only_ok:
+            raise Invalid('%s needs an ordinary observable' % op)
+        if op == 'sort':
+            key = node.get('key')
+            if key is not None and (key not in F.MAPS or not _match(t, F.MAPS[key][1]) or F.MAPS[key][2] not in NUM):
+                raise Invalid('sort key')
+            if key is None and t not in ('int', 'float', 'pair'):
+                raise Invalid('sort type')
+            return st.copy()
+        if node.get('extend'):
+            if t != 'list':
+                raise Invalid('to_deque(extend) type')
+            return st.copy(t='int', empty=True)
+        return st.copy()
     # ---- multiplexed only ----
     if op == 'distinct':
         key = node.get('key')
@@ -286,6 +308,7 @@ DEFAULT_WEIGHTS = {
     'assert_1': 1, 'progress': 1, 'tee_map': 3,
     'distinct': 2, 'lag': 2, 'pad_start': 2, 'pad_end': 2, 'start_with': 2,
     'group_by': 3, 'roll': 3, 'split': 3, 'time_split': 3,
+    'dist_update': 0, 'sort': 0, 'to_deque': 0,
 }
 
 
@@ -355,6 +378,17 @@ class Gen(object):
             return [{'op': 'batch', 'n': r.choice([1, 1, 2, 2, 3, 4, 7])}]
         if op == 'progress':
             return [{'op': 'progress', 'threshold': r.choice([1, 2, 3, 100]), 'mt': r.random() < 0.5}]
+        if op == 'dist_update':
+            return [{'op': 'dist_update', 'reduce': r.random() < 0.5, 'bins': r.choice([2, 4, 8])}]
+        if op == 'sort':
+            node = {'op': 'sort', 'reverse': r.random() < 0.5}
+            if t == 'int' and r.random() < 0.6:
+                node['key'] = r.choice(['mod3', 'neg', 'half'])
+            elif t == 'pair':
+                node['key'] = 'fst'
+            return [node]
+        if op == 'to_deque':
+            return [{'op': 'to_deque', 'extend': t == 'list' and r.random() < 0.5}]
         if op == 'lag':
             return [{'op': 'lag', 'n': r.choice([0, 1, 1, 2, 3, 9])}]
         if op in ('pad_start', 'pad_end'):
@@ -570,6 +604,15 @@ def build_node(node, ctx, mode, path, i):
         for bi, b in enumerate(node['branches']):
             bs.append(rx.pipe(*build(b, ctx, mode, '%s/%d:b%d' % (path, i, bi))))
         return rs.ops.tee_map(*bs, join=node['join'])
+    if op == 'dist_update':
+        return rs.math.dist.update(bin_count=node.get('bins', 8), reduce=bool(node.get('reduce')))
+    if op == 'sort':
+        kw = {'reverse': bool(node.get('reverse'))}
+        if node.get('key'):
+            kw['key'] = F.MAPS[node['key']][0]
+        return rs.data.sort(**kw)
+    if op == 'to_deque':
+        return rs.data.to_deque(extend=bool(node.get('extend')))
     if mode != 'mux':
         raise Invalid('%s needs a multiplexed source' % op)
     if op == 'distinct':
